@@ -41,6 +41,15 @@ DEFS = {
 }
 
 
+def newaxis_taker(ctx):
+    """ALG.newaxes.taker-positions (C25, C20): None entries are re-inserted into a fancy-index taker at the
+    positions that are left after the integers of the index were applied (the taker has no axes for them)."""
+    f = ctx.model.module("dask/array/slicing.py").func("slice_with_newaxes")
+    tk = find("indexer = M_e(dsk[v.args[1].key].value[1], None)", f)
+    ok = len(tk) == 1 and eqv(tk[0][1]["M_e"], "expand") and bool(find("expand = expander(where_none)", f)) and bool(find("arg = expand_orig(v.args[1], None)", f))
+    ctx.ob("ALG.newaxes.taker-positions", f, "taker branch: expand(<taker>, None) with the integer-adjusted positions; plain-index branch: expand_orig(v.args[1], None)", ok, "" if ok else "the new axis lands one place too far right for every integer that precedes the None: computed shape differs from the declared one")
+
+
 def check(ctx):
     model = ctx.model
     arr = model.klass(CORE, "Array")
@@ -132,6 +141,7 @@ def check(ctx):
     check_loose(ctx, all_loose(), rule="TWIN.shared-line.all")
     ctx.count("all_twin_pairs", n_all)
     key_inputs(ctx, floor=40, prefix="dask/array/")
+    newaxis_taker(ctx)
 
 
 VARIANTS = [
